@@ -404,7 +404,8 @@ def shard(shard_i, nshards, payload):
                 if v:
                     res.violation(v[0], v[1], v[2], case)
                     continue
-                if i % 2 == 0 and core.PLC_BIN and "\r" not in text and "\f" not in text:
+                if i % 2 == 0 and core.PLC_BIN and "\r" not in text and "\f" not in text and not text.startswith("\ufeff"):
+                    # (a file that starts with U+FEFF is a file with a byte order mark: the CLI reads another text)
                     # `echo` and `check` draw the problem of a file that does not parse at the line and column of its label
                     fpath = os.path.join(tmp, "e%d.st" % i)
                     open(fpath, "w").write(text)
